@@ -22,3 +22,14 @@ pub fn hex__decode(s: &str) -> (r: Result<Vec<u8>, DecodeHexError>)
     requires is_ascii_seq(strb(s))
     ensures match unhex(strb(s)) { Some(v) => r matches Ok(x) && x@ == v, None => r is Err }
 { unimplemented!() }
+
+#[verifier::external_type_specification]
+#[verifier::external_body]
+pub struct ExUtf8Error(core::str::Utf8Error);
+impl core::convert::From<core::str::Utf8Error> for anyhow::Error {
+    #[verifier::external_body]
+    fn from(e: core::str::Utf8Error) -> anyhow::Error { unimplemented!() }
+}
+/// str::from_utf8: Ok exactly for valid UTF-8, the same bytes
+pub assume_specification<'a>[ str::from_utf8 ](v: &'a [u8]) -> (r: core::result::Result<&'a str, core::str::Utf8Error>)
+    ensures match r { Ok(s) => strb(s) == v@ && is_utf8(v@), Err(_) => !is_utf8(v@) };
